@@ -1,8 +1,87 @@
 import GceTcb.Base.Line
-/- Driver handler for stream `c07evl` (stub: replaced when the property's model lands). -/
-namespace GceTcb.Drive.C07Evl
-open GceTcb
+import GceTcb.Model.EventLogCost
+import GceTcb.Drive.C18
+/-
+Driver handler for stream `c07evl` (C07, event-log half): runs the checked, cost-instrumented model
+of the repaired event-log readers and of the locator decoding.
 
-def handle (_f : Fields) : String := "unimplemented"
+  c07evl op=<item> kind=buffer|reader|file b=<hex>   item ∈ log pcrevent event2 eventdata digests digest cstr u32arr guid
+        → ok:<value>[ rest=<n>] ab=<ok|over> | eof ab=… | err ab=… | panic=<site> ab=…
+  c07evl op=event3 b=<hex>          SP800155Event3.UnmarshalFromBytes            → ok:<value> ab=… | eof | err | panic=
+  c07evl op=varloc b=<hex>          variableLocatorDecode                        → ok:<guid>:<name> | err | panic=<site>
+  c07evl op=ucs2 b=<hex>            ucs2toUTF8                                   → ok:<utf8 hex> | err | panic=<site>
+  c07evl op=efivar b=<hex>          ReadVariable on a file with these contents   → ok:<hex> | err | panic=<site>
+  c07evl op=rims b=<hex>            CryptoAgileLog.Unmarshal + RIMEventsFromEventLog → ok:<type/mfr/locator;…> | err | panic=
+  c07evl op=from mfr=<hex> b=<hex>  extract.Endorsement over an event-log file    → ok:raw:<hex> | ok:uri:<hex> | ok:var:<guid>:<name>:<basename> | err | panic=
+  c07evl op=rtlaw what=append|readall n=<n>          the runtime laws' bound      → bound=<bytes>
+
+`kind` is ignored: the repaired readers issue no zero-length Read, so the three reader kinds agree
+(C18_Log_reader_independent).  `ab` says whether the model's allocation count (with the runtime laws'
+upper bounds) is within the harness's meter threshold 64·|b| + 2^20 — always `ok` (C07_evl_alloc_bound).
+Text formats are those of Drive/C18.lean.
+-/
+namespace GceTcb.Drive.C07Evl
+open GceTcb GceTcb.Codec GceTcb.EventLog GceTcb.EvlCost
+
+def rt : Runtime := Runtime.upper
+
+def threshold (n : Nat) : Nat := 64 * n + 2 ^ 20
+
+/-- `<function>/<kind>` of a site name (`f#kind#ordinal` here, `f/kind` in Model/Extract.lean) -/
+def normSite (p : String) : String :=
+  match (p.replace "#" "/").splitOn "/" with
+  | f :: k :: _ => f ++ "/" ++ k
+  | _ => p
+
+def showStep {α : Type} (f : α → String) (withRest : Bool) (n : Nat) (s : Step α) : String :=
+  (match s.res with
+   | .ok a rest => "ok:" ++ f a ++ (if withRest then s!" rest={rest.length}" else "")
+   | .eof => "eof"
+   | .fail => "err"
+   | .panic p => "panic=" ++ normSite p) ++ (if s.alloc ≤ threshold n then " ab=ok" else " ab=over")
+
+def showOut {α : Type} (f : α → String) : Outcome α → String
+  | .ok a => "ok:" ++ f a
+  | .err _ => "err"
+  | .panic p => "panic=" ++ normSite p
+
+def showRim (r : Rim) : String := s!"{r.locType}/{hexEncode r.manufacturer}/{hexEncode r.locator}"
+
+def utf8Hex (s : String) : String := hexEncode s.toUTF8.toList
+
+def showReq : LocateReq → String
+  | .raw d => "raw:" ++ hexEncode d
+  | .uri u => "uri:" ++ hexEncode u
+  | .variable g n s => s!"var:{hexEncode g}:{hexEncode n}:{utf8Hex s}"
+
+def handle (f : Fields) : String :=
+  let b := f.bytes "b"
+  match f.get "op" with
+  | "log" => showStep Drive.C18.showLog false b.length (xReadLog rt b)
+  | "pcrevent" => showStep Drive.C18.showPcrEvent true b.length (xReadPcrEvent rt b)
+  | "event2" => showStep Drive.C18.showEvent2 true b.length (xReadEvent2 rt b)
+  | "eventdata" => showStep Drive.C18.showData true b.length (xReadEventData rt b)
+  | "digests" => showStep Drive.C18.showDigests true b.length (xReadDigestArray rt b)
+  | "digest" => showStep Drive.C18.showDigest true b.length (xReadDigest b)
+  | "cstr" => showStep hexEncode true b.length (xReadCStr b)
+  | "u32arr" => showStep hexEncode true b.length (xReadU32Array b)
+  | "guid" => showStep hexEncode true b.length (xReadGuid b)
+  | "event3" => showStep Drive.C18.showEvent3 false b.length (xUnmarshalEvent3 rt b)
+  | "varloc" => showOut (fun p => hexEncode p.1 ++ ":" ++ hexEncode p.2) (xVariableLocatorDecode b)
+  | "ucs2" => showOut utf8Hex (xUcs2toUTF8 b)
+  | "efivar" => showOut hexEncode (xEfiVarContents b)
+  | "rims" =>
+    match (xReadLog rt b).res with
+    | .ok l _ =>   -- the Go result is a map keyed by locator type: types ascending, log order within a type
+      "ok:" ++ ";".intercalate (((rimsOf l).mergeSort (fun a b => a.locType ≤ b.locType)).map showRim)
+    | .panic p => "panic=" ++ normSite p
+    | _ => "err"
+  | "from" => showOut showReq (xFromEventLog rt (f.bytes "mfr") b)
+  | "rtlaw" =>
+    match f.get "what" with
+    | "append" => s!"bound={rt.appendPtr (f.nat "n")}"
+    | "readall" => s!"bound={rt.readAll (f.nat "n")}"
+    | _ => "bad-op"
+  | _ => "bad-op"
 
 end GceTcb.Drive.C07Evl
